@@ -47,24 +47,27 @@ type SelCase struct {
 }
 
 type Event struct {
-	Kind   EventKind
-	Callee string        // qualified name of a static callee, or "invoke:<Method>", or "dyn"
-	Fn     *ssa.Function // static callee (origin) if any
-	Method string        // method / function short name
-	FnTerm *T            // called function value for dynamic calls
-	Recv   *T            // receiver (method calls and invokes)
-	Args   []*T          // arguments (without receiver)
-	Res    []*T          // results
-	Addr   *T            // store / send / recv / close: address or channel
-	Val    *T            // store / send: value
-	Cases  []SelCase
-	Chosen int // select: chosen case, -1 = default
-	Pure   bool
-	Instr  ssa.Instruction
-	InFn   *ssa.Function
-	Depth  int
-	Snap   *State // state right after the event (only for spawns / calls receiving closures)
-	Idx    int
+	Kind       EventKind
+	Callee     string        // qualified name of a static callee, or "invoke:<Method>", or "dyn"
+	Fn         *ssa.Function // static callee (origin) if any
+	Method     string        // method / function short name
+	FnTerm     *T            // called function value for dynamic calls
+	Recv       *T            // receiver (method calls and invokes)
+	Args       []*T          // arguments (without receiver), in the order of the function's upstream signature
+	RawArgs    []*T          // arguments and receiver as the analysed tree passes them (set when they were normalised)
+	RawRecv    *T
+	Normalised bool
+	Res        []*T // results
+	Addr       *T   // store / send / recv / close: address or channel
+	Val        *T   // store / send: value
+	Cases      []SelCase
+	Chosen     int // select: chosen case, -1 = default
+	Pure       bool
+	Instr      ssa.Instruction
+	InFn       *ssa.Function
+	Depth      int
+	Snap       *State // state right after the event (only for spawns / calls receiving closures)
+	Idx        int
 }
 
 func (e *Event) String() string {
@@ -758,7 +761,101 @@ func (ev *Evaluator) Param(fn *ssa.Function, name string) *T {
 			return ev.TS.intern(&T{Op: "param", Aux: p.Name(), Typ: p.Type()})
 		}
 	}
+	// the parameter travels in a by-value bundle (a struct parameter with a field of that name)
+	for _, p := range fn.Params {
+		if fi := bundleField(p.Type(), name); fi >= 0 {
+			k, ft := fieldKey(p.Type(), fi)
+			return ev.TS.intern(&T{Op: "fld", Aux: k, Args: []*T{ev.TS.intern(&T{Op: "param", Aux: p.Name(), Typ: p.Type()})}, Typ: ft})
+		}
+	}
 	return nil
+}
+
+func sameTerms(a, b []*T) bool {
+	if len(a) != len(b) {
+		return false
+	}
+	for i := range a {
+		if a[i] != b[i] {
+			return false
+		}
+	}
+	return true
+}
+
+// bundleField: t is a struct type declared in the library (a parameter bundle) with a field of this name; its index.
+func bundleField(t types.Type, name string) int {
+	n, ok := t.(*types.Named)
+	if !ok || n.Obj().Pkg() == nil || !strings.HasPrefix(n.Obj().Pkg().Path(), modPath) {
+		return -1
+	}
+	st, ok := n.Underlying().(*types.Struct)
+	if !ok {
+		return -1
+	}
+	for i := 0; i < st.NumFields(); i++ {
+		if st.Field(i).Name() == name {
+			return i
+		}
+	}
+	return -1
+}
+
+// normaliseArgs rewrites the argument list of a call of a library function into the order and shape of the
+// function's upstream signature when the analysed tree reordered the parameters or bundled them into a struct.
+func (ev *Evaluator) normaliseArgs(e *Event, callee *ssa.Function) {
+	names, ok := refParamNames(ev.P.CanonFuncName(callee))
+	if !ok || len(names) == 0 {
+		return
+	}
+	actual := callee.Params
+	full := fullArgs(e)
+	if len(full) != len(actual) {
+		return
+	}
+	same := len(names) == len(actual)
+	byName := map[string]int{}
+	for j, p := range actual {
+		byName[p.Name()] = j
+		if same && names[j] != p.Name() {
+			same = false
+		}
+	}
+	if same {
+		return
+	}
+	hasRecv := callee.Signature.Recv() != nil
+	out := make([]*T, len(names))
+	for i, r := range names {
+		if hasRecv && i == 0 {
+			out[0] = full[0] // the receiver, whatever it is called
+			continue
+		}
+		if j, isParam := byName[r]; isParam && !(hasRecv && j == 0) {
+			out[i] = full[j]
+			continue
+		}
+		for j, p := range actual {
+			fi := bundleField(p.Type(), r)
+			if fi < 0 {
+				continue
+			}
+			if a := full[j]; a.Op == "struct" && fi < len(a.Args) {
+				out[i] = a.Args[fi]
+			} else {
+				k, ft := fieldKey(p.Type(), fi)
+				out[i] = ev.TS.intern(&T{Op: "fld", Aux: k, Args: []*T{a}, Typ: ft})
+			}
+		}
+		if out[i] == nil {
+			return // a parameter of the upstream signature is gone: leave the call as it is
+		}
+	}
+	if hasRecv {
+		e.Recv, e.Args = out[0], out[1:]
+	} else {
+		e.Recv, e.Args = nil, out
+	}
 }
 
 // RunFrom evaluates fn(args) starting in state st (which is not modified).
@@ -1640,6 +1737,13 @@ func (ev *Evaluator) callEvent(st *State, fr *Frame, c *ssa.CallCommon, instr ss
 			e.Recv = e.Args[0]
 			e.Args = e.Args[1:]
 		}
+		if ev.P.InScope[e.Fn] {
+			rawA, rawR := e.Args, e.Recv
+			ev.normaliseArgs(e, e.Fn)
+			if len(rawA) != len(e.Args) || rawR != e.Recv || !sameTerms(rawA, e.Args) {
+				e.RawArgs, e.RawRecv, e.Normalised = rawA, rawR, true
+			}
+		}
 	case *ssa.Builtin:
 		e.Callee = "builtin:" + v.Name()
 		e.Method = v.Name()
@@ -1757,7 +1861,7 @@ func (ev *Evaluator) doCall(st *State, fr *Frame, c *ssa.CallCommon, instr ssa.I
 
 	// resolve callee
 	callee := e.Fn
-	seamRecv := c.IsInvoke() && e.Recv != nil && (e.Recv.Op == "struct" || ev.seamVals[e.Recv] || (e.Recv.Op == "init" && ev.seamType(e.Recv.Args[0]) != nil))
+	seamRecv := c.IsInvoke() && e.Recv != nil && (unexportedIface(c.Value.Type()) || e.Recv.Op == "struct" || e.Recv.Op == "zero" || ev.seamVals[e.Recv] || (e.Recv.Op == "init" && ev.seamType(e.Recv.Args[0]) != nil))
 	devirt := false
 	if c.IsInvoke() && ev.Cfg.ResolveInvoke != nil {
 		if f, nr := ev.Cfg.ResolveInvoke(ev, st, e.Recv, c.Method.Name()); f != nil {
@@ -1776,10 +1880,13 @@ func (ev *Evaluator) doCall(st *State, fr *Frame, c *ssa.CallCommon, instr ssa.I
 		// the receiver is a value built in line, or what a collaborator seam is known to hold: bound by its type
 		var f *ssa.Function
 		switch {
-		case e.Recv.Op == "struct" || ev.seamVals[e.Recv]:
+		case e.Recv.Op == "struct" || e.Recv.Op == "zero" || ev.seamVals[e.Recv]:
 			f = ev.bindByTermType(e.Recv.Typ, c.Method.Name())
-		case e.Recv.Op == "init":
+		case e.Recv.Op == "init" && ev.seamType(e.Recv.Args[0]) != nil:
 			f = ev.bindByTermType(ev.seamType(e.Recv.Args[0]), c.Method.Name())
+		case unexportedIface(c.Value.Type()):
+			// a concrete library value seen through an unexported interface of the library
+			f = ev.bindByTermType(e.Recv.Typ, c.Method.Name())
 		}
 		if f != nil {
 			callee = origin(f)
@@ -1844,10 +1951,14 @@ func (ev *Evaluator) doCall(st *State, fr *Frame, c *ssa.CallCommon, instr ssa.I
 	}
 	if inline {
 		var args []*T
-		if e.Recv != nil && callee.Signature.Recv() != nil {
-			args = append(args, e.Recv)
+		recv, plain := e.Recv, e.Args
+		if e.Normalised {
+			recv, plain = e.RawRecv, e.RawArgs
 		}
-		args = append(args, e.Args...)
+		if recv != nil && callee.Signature.Recv() != nil {
+			args = append(args, recv)
+		}
+		args = append(args, plain...)
 		var free []*T
 		if e.FnTerm != nil && e.FnTerm.Op == "closure" {
 			free = e.FnTerm.Args
